@@ -125,3 +125,21 @@ def reference(params):
     mem = {'mem': total['total'] * (w['scale'] if w else 1) + (w.get('bias', 0) if w else 0)}
     return {'data:src': src, 'data:dbl': dbl, 'model:agg:total': total, 'mem': mem,
             'report': {'report': mem['mem'], 'extra': params.get('e') if params.get('with_extra') else 'no-extra', 'title': params.get('title', 't')}}
+
+
+class TagSet(AutoParameterObject):
+    """a parameter object that normalises its argument into a set (used by the hash-seed scenario)"""
+
+    def __init__(self, tags):
+        self.tags = set(tags)
+
+
+class Loc(Task):
+    """a path-typed parameter with a string default that is not persisted when it has its default value"""
+
+    class Meta:
+        parameters = [Parameter('p', dtype=Path, default='/x', dont_persist_default_value=True), Parameter('ts', default=None)]
+
+    def run(self, p, ts) -> str:
+        RUNS.append(self.fullname)
+        return str(p)
